@@ -64,6 +64,8 @@ func (x *ctx) replay(h *llh.H, fl *llh.Failure, f fn, n, m, w int, v in, want ou
 		nc.RetC = "ddpint"
 	case "bool":
 		nc.RetC = "ddpbool"
+	case "char":
+		nc.RetC = "ddpchar"
 	default:
 		nc.RetC = "void"
 	}
@@ -116,6 +118,24 @@ func (x *ctx) replay(h *llh.H, fl *llh.Failure, f fn, n, m, w int, v in, want ou
 			}
 			nc.Args = append(nc.Args, a)
 			desc = append(desc, fmt.Sprintf("b=%q", string(utf8Of(bvs))))
+		case pTextL:
+			cp := len(v.parts)
+			if cp > 0 {
+				cp++
+			}
+			a := llh.CArg{Kind: "list", CType: "ddpstringlist", ElemC: "ddpstring", Len: len(v.parts), Cap: cp}
+			var shown []string
+			for _, p := range v.parts {
+				if len(p) == 0 {
+					a.Texts = append(a.Texts, nil)
+					shown = append(shown, "\"\"")
+				} else {
+					a.Texts = append(a.Texts, utf8Of(vals(p)))
+					shown = append(shown, fmt.Sprintf("%q", string(utf8Of(vals(p)))))
+				}
+			}
+			nc.Args = append(nc.Args, a)
+			desc = append(desc, "l=["+strings.Join(shown, ", ")+"]")
 		case pX:
 			nc.Args = append(nc.Args, llh.CArg{Kind: "int", CType: "ddpint", Bits: ev(v.x)})
 			desc = append(desc, fmt.Sprintf("x=%d", int64(ev(v.x))))
